@@ -651,8 +651,8 @@ theorem eqLikeHandler_noPanic (c : Ctx) (m : TraitMeta) (me : TraitId) (mine : T
   unfold eqLikeHandler
   repeat' (first | apply variantNoAttr_noPanic | np_step)
 
-theorem markerHandler_noPanic (c : Ctx) (m : TraitMeta) (me p : TraitId) (b s : String) (hm : m.ident.isSome = true) :
-    NoPanic (markerHandler c m me p b s) := by
+theorem markerHandler_noPanic (c : Ctx) (m : TraitMeta) (me p : TraitId) (b s : String) (w : Bool) (hm : m.ident.isSome = true) :
+    NoPanic (markerHandler c m me p b s w) := by
   unfold markerHandler
   repeat' (first | apply variantNoAttr_noPanic | np_step)
 
@@ -790,9 +790,9 @@ theorem handlerFor_noPanic (c : Ctx) (t : TraitId) (ms : List TraitMeta) (hne : 
     cases t <;> dsimp only
     · exact debugHandler_noPanic c m hm0
     · exact cloneHandler_noPanic c m hm0
-    · exact markerHandler_noPanic c m _ _ _ _ hm0
+    · exact markerHandler_noPanic c m _ _ _ _ _ hm0
     · exact eqLikeHandler_noPanic c m _ _ _ _ hm0
-    · exact markerHandler_noPanic c m _ _ _ _ hm0
+    · exact markerHandler_noPanic c m _ _ _ _ _ hm0
     · split
       · apply noPanic_bind
         · exact boundTypeFromMeta_noPanic _ m hm0
